@@ -327,9 +327,9 @@ Definition handle_ibtp (cfg : Defects) (w : world) (h serial : N) (b : ibtp) (t 
               else
                 match group_gid b with
                 | None => Some (tm_begin t h (b_id b) (u64_of_Z (b_T b)) terr)
-                | Some g => tm_begin_multi cfg t h g (b_id b) (u64_of_Z (b_T b)) terr (snd g)
+                | Some g => tm_begin_multi cfg (id_sort w) t h g (b_id b) (u64_of_Z (b_T b)) terr (snd g)
                 end
-            else tm_report (id_sort w) t (b_id b) (b_typ b) in
+            else tm_report cfg (id_sort w) t (b_id b) (b_typ b) in
           match r with
           | None => None
           | Some (TmErr e) => Some (t, c, res_err e)
